@@ -109,10 +109,15 @@ def _prune(prefix, keep):
 def build_lib(variant="seq", cbind=False):
     """Compile /repo's current library sources (hooks on) into a static
     archive, cached by content hash.  Returns (archive, cflags, ldflags)."""
+    import fcntl
     cf, lf = VARIANTS[variant]
-    key = file_hash(repo_sources(), " ".join(BASE_CXX + cf) + str(cbind))
+    extra_files = [os.path.join(ROOT, "harness", "verif_sched.h")] if variant == "sim" else []
+    key = file_hash(repo_sources() + extra_files, " ".join(BASE_CXX + cf) + str(cbind))
     d = os.path.join(BUILD, "lib-%s%s-%s" % (variant, "-c" if cbind else "", key))
     ar = os.path.join(d, "libmanifold.a")
+    os.makedirs(BUILD, exist_ok=True)
+    lk = open(os.path.join(BUILD, ".lib-%s%s-%s.lock" % (variant, "-c" if cbind else "", key)), "w")
+    fcntl.flock(lk, fcntl.LOCK_EX)     # released when lk is closed / collected
     if not os.path.exists(ar):
         os.makedirs(d, exist_ok=True)
         srcs = sorted(glob.glob(os.path.join(REPO, "src/*.cpp")))
@@ -129,11 +134,12 @@ def build_lib(variant="seq", cbind=False):
         if rc != 0:
             shutil.rmtree(d, ignore_errors=True)
             raise BuildError("library build (%s) failed:\n%s" % (variant, out[-4000:]))
-        rc, out = sh("ar rcs %s %s/*.o" % (shlex.quote(ar), shlex.quote(d)))
+        rc, out = sh("ar rcs %s.tmp %s/*.o && mv %s.tmp %s" % (shlex.quote(ar), shlex.quote(d), shlex.quote(ar), shlex.quote(ar)))
         if rc != 0:
             raise BuildError(out)
         _prune("lib-%s%s" % (variant, "-c" if cbind else ""), d)
     os.utime(d)
+    lk.close()
     extra = ["-I" + os.path.join(REPO, "bindings/c/include"), "-I" + os.path.join(REPO, "bindings/c")] if cbind else []
     return ar, BASE_CXX[1:] + cf + extra, lf
 
@@ -285,7 +291,8 @@ def parse_assumptions(log):
     axioms = []
     for blk in re.findall(r"Axioms:\n((?:.+\n?)+?)(?=\n\S|\Z)", log):
         for m in re.finditer(r"^([A-Za-z_][\w.']*)\s*:", blk, flags=re.M):
-            axioms.append(m.group(1))
+            if m.group(1) != "Axioms":
+                axioms.append(m.group(1))
     return closed, sorted(set(axioms))
 
 
@@ -479,6 +486,9 @@ class Check:
             lines.append("VIOLATION property=%s replay=%s" % (self.pid, path))
             self.log("violation:", key, "-", desc)
             nviol += 1
+        if fresh and self.broken:
+            for n, d in self.broken:
+                self.log("also no longer checks:", n, "-", d[:300])
         if not fresh and self.broken:
             # a proof obligation or the correspondence no longer checks, and the
             # search found no concrete failing input
